@@ -21,6 +21,16 @@ def names_of(spec: Dict, ind) -> List[str]:
     return out
 
 
+def direct_entry(c, ind, nm: str):
+    """Direct inspection of the candle: the entry stored under the indicator's name (a
+    top-level indicator writes into candle.indicators), and the field of it for a dotted name."""
+    base = c.indicators.get(ind.name)
+    if nm == ind.name:
+        return base
+    field = nm[len(ind.name) + 1:]
+    return base.get(field) if isinstance(base, dict) else base
+
+
 def falsify(ctx, case: Dict) -> bool:
     specs, rows, tfs, after = case["specs"], case["rows"], case["tfs"], case.get("after")
     bad = None
@@ -40,7 +50,9 @@ def falsify(ctx, case: Dict) -> bool:
                 n = len(cs)
                 for nm in names_of(spec, m):
                     direct = [reading_by_candle(c, nm) for c in cs]
-                    if not E.same_value_list(m.as_list(nm), direct):
+                    if not E.same_value_list(direct, [direct_entry(c, m, nm) for c in cs]):
+                        bad = {"relation": "reading_by_candle-vs-stored-entry"}
+                    elif not E.same_value_list(m.as_list(nm), direct):
                         bad = {"relation": "as_list-vs-candles"}
                     elif not E.same_value_list(h.reading_as_list(nm), direct):
                         bad = {"relation": "Hexital.reading_as_list-vs-candles"}
@@ -109,7 +121,8 @@ def run(ctx: core.Ctx) -> int:
             # indicators that legitimately read 0 / False: Counter, OBV on zero volume, STDEVTHRES, TR on flat candles
             k = rng.choice(kinds + ["COUNTER", "OBV", "STDEVTHRES", "TR", "STDEV"])
             s = X.gen_spec(rng, k, inputs=("close", "high"))
-            s["name_suffix"] = f"m{j}"
+            # user-chosen suffixes may contain a dot (the library keeps dots out of the final name)
+            s["name_suffix"] = rng.choice([f"m{j}", f"m{j}", f"m{j}", f"{j}.5", f"v{j}.0"])
             specs.append(s)
             tfs.append(rng.choice([None, None, "T5", "T15"]))
         cases.append({"specs": specs, "rows": rows, "tfs": tfs, "probe": [rng.randrange(1000) for _ in range(3)],
